@@ -3,91 +3,126 @@
 (* Declarative TAP 12/13 obligations over a whole stream: for every        *)
 (* position, which events that line owes, defined by comprehension over    *)
 (* the positions before it - independent of the parser state machine in    *)
-(* TAP.tla.  TAP_MC checks  DeclAll(s) = RunAll(s)  for every stream s up  *)
-(* to a bound.                                                              *)
+(* TAP.tla.  TAP_MC checks  DeclAll(L, s) = RunAllL(L, s)  for every       *)
+(* stream s up to a bound and both values of the representability          *)
+(* parameter L (see TAP!Rep).                                               *)
 (***************************************************************************)
 EXTENDS TAP
 
-\* The protocol version of a stream: 13+ only when announced on the very first line.
-DeclVersion(s) == IF Len(s) >= 1 /\ s[1].k = "version" /\ s[1].a >= 13 THEN s[1].a ELSE 12
+\* The protocol version of a stream: 13+ only when announced (representably) on the very first line.
+DeclVersion(L, s) ==
+    IF Len(s) >= 1 /\ s[1].k = "version" /\ Rep(L, s[1].a, s[1].z) /\ s[1].a >= 13 THEN s[1].a ELSE 12
 
-\* Role of each position with respect to YAML blocks:
-\*   "live"  - read as a TAP line
-\*   "open"  - opens a YAML block (only directly after a live test line, TAP >= 13)
-\*   "body"  - inside a block
-\*   "close" - the `...` terminator
-\*   "break" - a line that is not indented like the block: ends it with an error and is then read as a TAP line
-RECURSIVE RolesFrom(_, _, _, _)
-RolesFrom(s, i, mode, acc) ==
-    \* mode: <<"live">>, <<"after">> (previous live line was a test), <<"yaml", indent>>
+\* One pass over the positions gives each its role with respect to YAML blocks and, for a test line that is read
+\* as a TAP line, its number:
+\*   role "live"  - read as a TAP line
+\*        "open"  - opens a YAML block (only directly after a live, valid test line, TAP >= 13)
+\*        "body"  - inside a block
+\*        "close" - the `...` terminator
+\*        "break" - a line that is not indented like the block: ends it with an error and is then read as a TAP line
+\*   num  the number of a test line: its own, else one more than the previous valid test's (0 before the first);
+\*        -1 for a test line whose number is not representable (the line is invalid: one error, otherwise
+\*        ignored) and for every line that is not a test line or is not read as a TAP line.
+RECURSIVE ScanFrom(_, _, _, _, _, _)
+ScanFrom(L, s, i, mode, last, acc) ==
+    \* mode: <<"live">>, <<"after">> (previous live line was a valid test), <<"yaml", indent>>
     IF i > Len(s) THEN acc
-    ELSE LET ln == s[i] IN
-         IF mode[1] = "yaml" THEN
-              IF ln.k = "yend" THEN RolesFrom(s, i + 1, <<"live">>, Append(acc, "close"))
-              ELSE IF ln.k \in {"ystart", "ibody"} /\ ln.a >= mode[2] THEN RolesFrom(s, i + 1, mode, Append(acc, "body"))
-              ELSE RolesFrom(s, i + 1, IF ln.k = "test" THEN <<"after">> ELSE <<"live">>, Append(acc, "break"))
-         ELSE IF mode[1] = "after" /\ DeclVersion(s) >= 13 /\ ln.k = "ystart"
-              THEN RolesFrom(s, i + 1, <<"yaml", ln.a>>, Append(acc, "open"))
-         ELSE RolesFrom(s, i + 1, IF ln.k = "test" THEN <<"after">> ELSE <<"live">>, Append(acc, "live"))
+    ELSE LET ln == s[i]
+             number == IF Given(ln) THEN ln.n ELSE last + 1
+             valid == ln.k = "test" /\ Rep(L, number, ln.z)
+             ReadAs(role) == ScanFrom(L, s, i + 1, IF valid THEN <<"after">> ELSE <<"live">>,
+                                      IF valid THEN number ELSE last,
+                                      Append(acc, [role |-> role, num |-> IF valid THEN number ELSE -1]))
+             Skip(role, m) == ScanFrom(L, s, i + 1, m, last, Append(acc, [role |-> role, num |-> -1]))
+         IN IF mode[1] = "yaml" THEN
+              IF ln.k = "yend" THEN Skip("close", <<"live">>)
+              ELSE IF ln.k \in {"ystart", "ibody"} /\ ln.a >= mode[2] THEN Skip("body", mode)
+              ELSE ReadAs("break")
+            ELSE IF mode[1] = "after" /\ DeclVersion(L, s) >= 13 /\ ln.k = "ystart"
+                 THEN Skip("open", <<"yaml", ln.a>>)
+            ELSE ReadAs("live")
 
-Roles(s) == RolesFrom(s, 1, <<"live">>, <<>>)
+Scan(L, s) == ScanFrom(L, s, 1, <<"live">>, 0, <<>>)
 
-Read(s) == { i \in 1..Len(s) : Roles(s)[i] \in {"live", "break"} }   \* positions read as TAP lines
-TestPos(s) == { i \in Read(s) : s[i].k = "test" }
-PlanPos(s) == { i \in Read(s) : s[i].k = "plan" }
+\* the sets of positions the rules talk about (sc = Scan(L, s), passed along so that it is computed once)
+ReadOf(s, sc) == { i \in 1..Len(s) : sc[i].role \in {"live", "break"} }                  \* read as TAP lines
+TestPosOf(s, sc) == { i \in 1..Len(s) : sc[i].num >= 0 }                                \* valid test lines
+\* plan lines that announce a representable count; the first one counts
+PlanPosOf(L, s, sc) == { i \in ReadOf(s, sc) : s[i].k = "plan" /\ Rep(L, s[i].a, s[i].z) }
+First(S) == CHOOSE i \in S : \A j \in S : i <= j
+Largest(S) == CHOOSE m \in S : \A k \in S : k <= m
 
-\* the number of the test at position i: its own, else one more than the previous test's (0 before the first)
-RECURSIVE NumberAt(_, _)
-NumberAt(s, i) ==
-    IF s[i].n # 0 THEN s[i].n
-    ELSE LET prev == { j \in TestPos(s) : j < i } IN
-         IF prev = {} THEN 1 ELSE NumberAt(s, CHOOSE j \in prev : \A k \in prev : k <= j) + 1
+Roles(L, s) == LET sc == Scan(L, s) IN [i \in 1..Len(s) |-> sc[i].role]
+Read(L, s) == ReadOf(s, Scan(L, s))
+TestPos(L, s) == TestPosOf(s, Scan(L, s))
+NumberAt(L, s, i) == Scan(L, s)[i].num
+PlanPos(L, s) == PlanPosOf(L, s, Scan(L, s))
+HasPlan(L, s) == PlanPos(L, s) # {}
+ThePlan(L, s) == First(PlanPos(L, s))
+PlanIsLate(L, s) == \E t \in TestPos(L, s) : t < ThePlan(L, s)
 
-HasPlan(s) == PlanPos(s) # {}
-ThePlan(s) == CHOOSE i \in PlanPos(s) : \A j \in PlanPos(s) : i <= j       \* the first one counts
-PlanIsLate(s) == \E t \in TestPos(s) : t < ThePlan(s)
-
-\* events owed by position i
-Owed(s, i) ==
+\* events owed by position i  (sc = Scan(L, s))
+OwedOf(L, s, sc, i) ==
     LET ln == s[i]
-        role == Roles(s)[i]
+        role == sc[i].role
+        tests == TestPosOf(s, sc)
+        plans == PlanPosOf(L, s, sc)
+        hasPlan == plans # {}
+        thePlan == First(plans)
+        planIsLate == \E t \in tests : t < thePlan
         brk == IF role = "break" THEN <<Err("yaml-not-terminated")>> ELSE <<>>
     IN
     IF role \in {"open", "body", "close"} THEN <<>>
     ELSE brk \o
     CASE ln.k \in {"blank", "comment"} -> <<>>
       [] ln.k = "test" ->
-           LET planned == HasPlan(s) /\ ThePlan(s) < i
-               firstAfterLatePlan == planned /\ PlanIsLate(s) /\ ~\E t \in TestPos(s) : ThePlan(s) < t /\ t < i
-               number == NumberAt(s, i)
+           IF sc[i].num < 0 THEN <<Err("invalid-test-number")>>
+           ELSE
+           LET planned == hasPlan /\ thePlan < i
+               firstAfterLatePlan == planned /\ planIsLate /\ ~\E t \in tests : thePlan < t /\ t < i
+               number == sc[i].num
            IN (IF firstAfterLatePlan THEN <<Err("test-after-late-plan")>> ELSE <<>>)
-              \o (IF planned /\ number > s[ThePlan(s)].a THEN <<Err("number-exceeds-plan")>> ELSE <<>>)
+              \o (IF planned /\ number > s[thePlan].a THEN <<Err("number-exceeds-plan")>> ELSE <<>>)
               \o <<Ev("test", number, Result(ln.a, ln.d), 0)>>
       [] ln.k = "plan" ->
-           IF i # ThePlan(s) THEN <<Err("second-plan")>>
+           IF hasPlan /\ thePlan < i THEN <<Err("second-plan")>>
+           ELSE IF ~Rep(L, ln.a, ln.z) THEN <<Err("invalid-plan")>>
            ELSE (IF ln.d = "skip" /\ ln.a > 0 THEN <<Err("skip-plan-with-tests")>> ELSE <<>>)
                 \o (IF ln.d = "todo" THEN <<Err("bad-plan-directive")>> ELSE <<>>)
-                \o <<Ev("plan", ln.a, "", 2 * Bit(PlanIsLate(s)) + Bit(ln.a = 0 \/ ln.d = "skip"))>>
+                \o <<Ev("plan", ln.a, "", 2 * Bit(planIsLate) + Bit(ln.a = 0 \/ ln.d = "skip"))>>
       [] ln.k = "bail" -> <<Ev("bail", 0, "", 0)>>
       [] ln.k = "version" ->
            IF i # 1 THEN <<Err("misplaced-version")>>
+           ELSE IF ~Rep(L, ln.a, ln.z) THEN <<Err("invalid-version")>>
            ELSE IF ln.a < 13 THEN <<Err("version-too-low")>> ELSE <<Ev("version", ln.a, "", 0)>>
       [] OTHER -> <<Ev("unknown", 0, "", 0)>>
+Owed(L, s, i) == OwedOf(L, s, Scan(L, s), i)
 
 \* events owed at end of stream
-OwedAtEnd(s) ==
-    LET roles == Roles(s)
-        openYaml == Len(s) > 0 /\ roles[Len(s)] \in {"open", "body"}
-        count == Cardinality(TestPos(s))
-        highest == IF TestPos(s) = {} THEN 0
-                   ELSE LET nums == { NumberAt(s, t) : t \in TestPos(s) } IN CHOOSE m \in nums : \A k \in nums : k <= m
-        bailed == \E i \in Read(s) : s[i].k = "bail"
+OwedAtEndOf(L, s, sc) ==
+    LET tests == TestPosOf(s, sc)
+        plans == PlanPosOf(L, s, sc)
+        openYaml == Len(s) > 0 /\ sc[Len(s)].role \in {"open", "body"}
+        count == Cardinality(tests)
+        highest == IF tests = {} THEN 0 ELSE Largest({ sc[t].num : t \in tests })
+        bailed == \E i \in ReadOf(s, sc) : s[i].k = "bail"
     IN (IF openYaml THEN <<Err("yaml-not-terminated")>> ELSE <<>>)
        \o (IF bailed THEN <<>>
-           ELSE IF HasPlan(s) /\ count # s[ThePlan(s)].a THEN <<Err("count-differs-from-plan")>>
+           ELSE IF plans # {} /\ count # s[First(plans)].a THEN <<Err("count-differs-from-plan")>>
            ELSE IF highest # count THEN <<Err("duplicate-or-missing-numbers")>>
            ELSE <<>>)
+OwedAtEnd(L, s) == OwedAtEndOf(L, s, Scan(L, s))
 
-DeclAll(s) == [i \in 1..(Len(s) + 1) |-> IF i <= Len(s) THEN Owed(s, i) ELSE OwedAtEnd(s)]
+DeclAll(L, s) == LET sc == Scan(L, s)
+                 IN [i \in 1..(Len(s) + 1) |-> IF i <= Len(s) THEN OwedOf(L, s, sc, i) ELSE OwedAtEndOf(L, s, sc)]
+
+\* ---- the whole-test verdict, stated over the stream ----------------------------------------
+\* bad iff some (valid) test line is `not ok` without TODO or `ok` with TODO, some position owes an error or a
+\* bail-out, or the exit status is not zero
+DeclBad(L, s, exitcode) ==
+    LET owed == DeclAll(L, s) IN
+    \/ \E t \in TestPos(L, s) : BadResult(Result(s[t].a, s[t].d))
+    \/ \E i \in 1..(Len(s) + 1) : \E j \in 1..Len(owed[i]) : owed[i][j].k \in {"error", "bail"}
+    \/ exitcode # 0
 
 =============================================================================
